@@ -248,8 +248,12 @@ def m_option_map(ex, m, argv, guard, st, callee):
     none = EnumV(ex.defs.find_enum('Option'), bv(0, 64), {'None': ()})
     if 'Some' not in o.variants or z3.is_false(zsimp(some)):
         return guard, none
-    st2 = st.copy()
-    g2, v = call_closure(ex, f, [o.variants['Some'][0]], zand(guard, some), st2)
+    before = st.copy()
+    g2, v = call_closure(ex, f, [o.variants['Some'][0]], zand(guard, some), st)
+    if not z3.is_true(zsimp(some)):
+        from mirsym import merge_states
+        _g, merged = merge_states([(some, st.copy()), (znot(some), before)])
+        st.mem, st.dom, st.ckey = merged.mem, merged.dom, merged.ckey
     return zor(zand(guard, znot(some)), g2), option(ex, some, v)
 
 
@@ -1004,6 +1008,82 @@ def m_identity_iter(ex, m, argv, guard, st, callee):
     return guard, argv[0]
 
 
+# ---- owned Vec iteration: into_iter().map(closure).collect::<Vec<_>>() -----------------------------------
+def m_vec_new(ex, m, argv, guard, st, callee):
+    return guard, new_vec(ex.vec_new_slots, bv(0, 64), bv(0, 64))
+
+
+def m_vec_pop(ex, m, argv, guard, st, callee):
+    ref = argv[0]
+    v = ex.read_ref(st, ref)
+    if not (isinstance(v, Model) and v.kind == 'vec'):
+        raise Unsupported("Vec::pop on %r" % (v,))
+    ln = v.f['len']
+    items = v.f['items'].fields
+    nonempty = ln != bv(0, 64)
+    present = [x for x in items if x is not None]
+    none = EnumV(ex.defs.find_enum('Option'), bv(0, 64), {'None': ()})
+    if not present:
+        return guard, none
+    filled = [x if x is not None else present[0] for x in items]
+    last = select(filled, ln - bv(1, 64)) if not z3.is_bv_value(zsimp(ln)) or zsimp(ln).as_long() > 0 else present[0]
+    ex.write_cell(st, ref.cell, ref.path, Model('vec', items=v.f['items'], len=zsimp(zite(nonempty, ln - bv(1, 64), ln)), cap=v.f['cap']))
+    return guard, option(ex, nonempty, last)
+
+
+def m_vec_into_iter(ex, m, argv, guard, st, callee):
+    v = argv[0]
+    if not (isinstance(v, Model) and v.kind == 'vec'):
+        raise Unsupported("Vec::into_iter on %r" % (v,))
+    return guard, Model('vec_into_iter', vec=v)
+
+
+def m_owned_map(ex, m, argv, guard, st, callee):
+    it, f = argv
+    if not (isinstance(it, Model) and it.kind == 'vec_into_iter'):
+        raise Unsupported("Iterator::map on %r" % (it,))
+    return guard, Model('map_iter', vec=it.f['vec'], fn=f)
+
+
+def m_map_collect(ex, m, argv, guard, st, callee):
+    """collect::<Vec<_>>() of vec.into_iter().map(closure): the closure is applied to the elements in order; element i
+    is processed only when i < len (symbolic), the state after a skipped element is the state before it."""
+    mp = argv[0]
+    if not (isinstance(mp, Model) and mp.kind == 'map_iter'):
+        raise Unsupported("collect on %r" % (mp,))
+    vec, clo = mp.f['vec'], mp.f['fn']
+    items = list(vec.f['items'].fields)
+    ln = vec.f['len']
+    target = find_closure(ex, clo.tag)
+    ex.fresh_n += 1
+    cell = (0, 'closure%d' % ex.fresh_n)
+    st.mem[cell] = clo
+    out = []
+    for i, x in enumerate(items):
+        active = zsimp(z3.ULT(bv(i, 64), ln))
+        if x is None or z3.is_false(active):
+            out.append(None)
+            continue
+        before = st.copy()
+        g2, r = ex.call_function(target.fn, [PlaceRef(cell), x], zand(guard, active), st)
+        out.append(r)
+        if not z3.is_true(active):
+            from mirsym import merge_states
+            _g, merged = merge_states([(active, st.copy()), (znot(active), before)])
+            st.mem, st.dom, st.ckey = merged.mem, merged.dom, merged.ckey
+    del st.mem[cell]
+    # one spare slot so that a following push does not exceed the model
+    return guard, Model('vec', items=Agg(out + [None], 'vecitems'), len=ln, cap=zsimp(ln + bv(1, 64)))
+
+
+def m_noop_unit(ex, m, argv, guard, st, callee):
+    return guard, UNIT
+
+
+def m_bool_default(ex, m, argv, guard, st, callee):
+    return guard, FALSE
+
+
 def m_maybeuninit_write(ex, m, argv, guard, st, callee):
     ref = argv[0]
     if not isinstance(ref, PlaceRef):
@@ -1025,6 +1105,13 @@ def register(ex):
     _EX[0] = ex
     A = ex.add_model
     A(r'^(?:std::vec::)?Vec::<.*>::(len|capacity)$', m_vec_len, 'Vec::len/capacity (fixed-slot model)')
+    A(r'^(?:std::vec::)?Vec::<.*>::new$', m_vec_new, 'Vec::new (fixed-slot model)')
+    A(r'^(?:std::vec::)?Vec::<.*>::pop$', m_vec_pop, 'Vec::pop')
+    A(r'^<(?:std::vec::)?Vec<.*> as (?:std::iter::)?IntoIterator>::into_iter$', m_vec_into_iter, 'Vec::into_iter (owned)')
+    A(r'^<(?:std::vec::)?IntoIter<.*> as (?:std::iter::)?Iterator>::map::<.*>$', m_owned_map, 'IntoIter::map (lazy)')
+    A(r'^<(?:std::iter::)?Map<(?:std::vec::)?IntoIter<.*>, \{closure@.*\}> as (?:std::iter::)?Iterator>::collect::<(?:std::vec::)?Vec<.*>>$', m_map_collect, 'Map<IntoIter, closure>::collect::<Vec> (closure applied in order)')
+    A(r'^<(?:std::boxed::)?Box<.*> as (?:std::ops::)?Drop>::drop$', m_noop_unit, 'Box drop (no-op)')
+    A(r'^<bool as (?:std::default::)?Default>::default$', m_bool_default, 'bool::default')
     A(r'^(?:std::vec::)?Vec::<.*>::with_capacity$', m_hvec_with_capacity, 'Vec::with_capacity (heap model with initialisation flags)')
     A(r'^(?:std::vec::)?Vec::<.*>::spare_capacity_mut$', m_hvec_spare, 'Vec::spare_capacity_mut')
     A(r'^(?:std::vec::)?Vec::<.*>::set_len$', m_hvec_set_len, 'Vec::set_len (obligations: within capacity, every exposed slot written)')
